@@ -240,8 +240,47 @@ def _seq_class(seq) -> str:
     return "after-observers" if seq else "no-observers"
 
 
+def _poke(msg, depth=0) -> bool:
+    """change something inside a message in place; returns whether anything was changed"""
+    import betterproto
+
+    for sn in attr_names(type(msg)).values():
+        try:
+            sv = getattr(msg, sn)
+        except AttributeError:
+            continue
+        if sv is None:
+            continue
+        if isinstance(sv, bool):
+            setattr(msg, sn, not sv)
+            return True
+        if isinstance(sv, int):
+            setattr(msg, sn, type(sv).try_value(1 if int(sv) != 1 else 0) if isinstance(sv, betterproto.Enum) else (sv + 1 if sv < 100 else 0))
+            return True
+        if isinstance(sv, str):
+            setattr(msg, sn, sv + "!")
+            return True
+        if isinstance(sv, bytes):
+            setattr(msg, sn, sv + b"!")
+            return True
+        if isinstance(sv, float):
+            setattr(msg, sn, 1.0 if sv != 1.0 else 2.0)
+            return True
+    if depth < 2:
+        for sn in attr_names(type(msg)).values():
+            try:
+                sv = getattr(msg, sn)
+            except AttributeError:
+                continue
+            if isinstance(sv, betterproto.Message) and _poke(sv, depth + 1):
+                return True
+            if isinstance(sv, list) and sv and isinstance(sv[0], betterproto.Message) and _poke(sv[0], depth + 1):
+                return True
+    return False
+
+
 def _mutate(c) -> str:
-    """mutate containers / sub-messages of a copy in place; returns what was mutated"""
+    """mutate containers / sub-messages of a copy in place (existing elements included); returns what was mutated"""
     import betterproto
 
     done = []
@@ -251,42 +290,21 @@ def _mutate(c) -> str:
         except AttributeError:
             continue
         if isinstance(v, list) and v:
-            x = v[0]
-            if isinstance(x, betterproto.Message):
-                sub_names = list(attr_names(type(x)).values())
-                for sn in sub_names:
-                    try:
-                        sv = getattr(x, sn)
-                    except AttributeError:
-                        continue
-                    if isinstance(sv, int) and not isinstance(sv, bool):
-                        setattr(x, sn, 1 if sv == 0 else 0)
-                        done.append("list-element-field")
-                        break
+            if isinstance(v[0], betterproto.Message) and _poke(v[0]):
+                done.append("list-element-message")
             v.append(v[0])
             v.reverse()
             done.append("list")
         elif isinstance(v, dict) and v:
             k = next(iter(v))
-            v[k] = v[k]
-            v.pop(k)
-            done.append("map")
+            if isinstance(v[k], betterproto.Message) and _poke(v[k]):
+                done.append("map-value-message")
+            else:
+                v.pop(k)
+                done.append("map")
         elif isinstance(v, betterproto.Message):
-            for sn in attr_names(type(v)).values():
-                try:
-                    sv = getattr(v, sn)
-                except AttributeError:
-                    continue
-                if isinstance(sv, bool):
-                    continue
-                if isinstance(sv, int):
-                    setattr(v, sn, sv + 1 if sv < 100 else 0)
-                    done.append("sub-message-field")
-                    break
-                if isinstance(sv, str):
-                    setattr(v, sn, sv + "!")
-                    done.append("sub-message-field")
-                    break
+            if _poke(v):
+                done.append("sub-message")
     return "+".join(sorted(set(done)))
 
 
